@@ -795,7 +795,12 @@ def oracle(ctx):
     for i in range(n):
         if ctx.escalated and len(ctx.violations) >= 5:
             ctx.count("search_stopped_after_failing_inputs_found"); break
-        freq, ds, kw = seeded.pop() if seeded else gen_kwargs(rng)
+        if i == 0:
+            # the committed witness of D-C13-empty-by-list is evaluated on every run
+            import datetime as _dt
+            freq, ds, kw = R.YEARLY, _dt.datetime(2020, 1, 1, 9), {"count": 4, "bymonthday": ()}
+        else:
+            freq, ds, kw = seeded.pop() if seeded else gen_kwargs(rng)
         try:
             r = build(freq, ds, kw)
             base = head(iter(r))
